@@ -80,6 +80,16 @@ ONE = {
     'C13f': 'the metaclass writes a provisional False into its verdict cache before inspecting the MRO: a rejection (Warning) leaves it there, the second dump of such an object is serialised silently without the remote flag',
     'C17f': 'restart() of a thread worker whose old incarnation cannot be stopped only logs a warning and goes on: the abandoned old thread acts on the new incarnation (shared object)',
     'C20f': 'the server parks the client socket of a worker request naming an unknown context (to serve it when the context shows up) instead of closing it: the constructor blocks for as long as nobody registers that id',
+    'C02g': 'recv_msg refuses messages whose length prefix exceeds 4 MiB ("hardening"): a RemoteWorker whose result is larger ends with has_error True / error None while thread and process workers return the value',
+    'C03g': 'the input wait of PersistentProcessWorker.do_work ends the loop on except Exception instead of queue.Empty: a graceful terminate of an idle worker is swallowed, the worker reports a normal outcome',
+    'C07g': 'the re-dispatch loop of handle_death breaks only when try_enqueue returns False - which it does not when the user enqueue_fn refuses the input: Pool.run spins for ever',
+    'C09g': 'cleanup_worker terminates a worker that missed close_timeout only if force is truthy: with the default force=None a busy or stuck worker outlives a pool that is closed normally',
+    'C12g': 'the reaping loop of RemoteServer.run pops each child off self.children BEFORE terminating it: a SIGTERM arriving while that child is being stopped finds it in no list - it is orphaned and its parent never finds out',
+    'C14g': 'the one-shot __setstate__ wrapper deep-copies the state instead of copying the dict: shared references and cycles below an opt-in object are duplicated, children are serialised and restored again',
+    'C15g': 'RemoteState.context keeps the per-thread stack across calls (created once, not deleted on success): frames left by an earlier loads are applied to the objects of a later one',
+    'C16g': 'restart() calls _get_result() only when wait() succeeded: after a restart that had to terminate a busy process worker the next incarnation starts from the stale construction-time state',
+    'C18g': 'the duplicate-id branch of the server "cleans up the rejected copy" but calls wait/terminate on the REGISTERED context: a second registration of an id kills the first context and its workers',
+    'C19g': 'the registry becomes a weakref.WeakSet: a process worker the caller keeps no reference to is dropped while its OS process runs - active_children() and autoclose no longer see it',
     'C19e': 'the registry of active children becomes a dict keyed by worker id (setdefault): a new worker whose id equals that of a dead, not yet pruned one is never registered',
 }
 for d in sorted(glob.glob('/verif/seeded/*/')):
